@@ -15,7 +15,6 @@ M = []
 
 
 EQUIVALENT = {
-    'c05-negate-before-abs': 'only differs when {+amount} is combined with negate_amount: true, which the property does not specify',
     'c05-header-ignored-regex': 'a header line that matches the regex has a non-date first cell and is skipped as a malformed row anyway',
     'c08-row-dropped-on-rule-error': 'since fix 7863984 no evaluation error reaches the per-row except clause',
 }
